@@ -94,7 +94,12 @@ def key_of(c):
     return f"{c['d']}{'(forward)' if c['fwd'] else ''}|{'enum' if sh['enum'] else 'struct'}[{vs}]"
 
 
+SAME_TYPES = False     # set per case: every field has the SAME type (a derive keyed by field type must still treat each field)
+
+
 def fty(i):
+    if SAME_TYPES:
+        return "Tag"
     return "Tag" if i % 2 == 1 else "Tag2"
 
 
@@ -215,7 +220,17 @@ def run(chk, tier, seed, replay):
         want = json.load(open(replay))["key"]
         cases = {k: v for k, v in cases.items() if k == want}
     chk.cov["exhaustive"] = not replay
+    global SAME_TYPES
     mods = [(k, module(rec["c"], k, max_items)) for k, rec in cases.items()]
+    # the same shapes with every field of ONE type (field types repeat): a derive that keys anything by field type must
+    # still treat each field
+    SAME_TYPES = True
+    for k, rec in list(cases.items()):
+        if any(v["n"] >= 2 for v in rec["c"]["sh"]["vs"]):
+            k2 = k + "|same_types"
+            cases[k2] = rec
+            mods.append((k2, module(rec["c"], k2, max_items)))
+    SAME_TYPES = False
     log(f"[C10] {len(mods)} operator derives")
     nsh = 4
     shards = [mods[i::nsh] for i in range(nsh)]
